@@ -80,14 +80,17 @@ class C01(Prop):
         if any(p["kind"] == "file" and len(p["content"]) > plan["spool"] for p in form["parts"]):
             ctx.probe("upload_rolled_to_disk")
         ct = mpm.content_type_header(form, "utf-8" if plan["charset_in_ct"] else None)
+        reuse = ctx.sched.draw(6) == 0
+        if reuse:
+            ctx.fault("producer_reuses_its_buffer")
         results = {}
         try:
             for surf in feed.SURFACES:
                 try:
                     if surf == "decoder":
-                        got, extra = feed.run_decoder(form["boundary"], pieces)
+                        got, extra = feed.run_decoder(form["boundary"], pieces, reuse_buffer=reuse)
                     elif surf == "parse_stream":
-                        got = feed.items_of_sync(feed.run_parse_stream(form["boundary"], pieces))
+                        got = feed.items_of_sync(feed.run_parse_stream(form["boundary"], pieces, reuse_buffer=reuse))
                     elif surf == "parse_async_stream":
                         got = feed.run_parse_async_stream(ctx, form["boundary"], pieces, delays, post=feed.items_of_async)
                     elif surf == "wsgi_form":
